@@ -41,6 +41,8 @@ fn sugar_pairs() -> Vec<(String, String)> {
         (wrap("    x := 1 -> add(2)"), wrap("    x := add(1, 2)")),
         (wrap("    x := 1 -> add(2) -> add(3)"), wrap("    x := add(add(1, 2), 3)")),
         (wrap("    x := 1 -> inc()"), wrap("    x := inc(1)")),
+        (wrap("    x := 1 -> add(1) -> add(2) -> add(3)"), wrap("    x := add(add(add(1, 1), 2), 3)")),
+        (wrap("    x := 1 -> inc() -> inc() -> inc() -> inc()"), wrap("    x := inc(inc(inc(inc(1))))")),
         (wrap("    x := (1 + 2) -> add(3)"), wrap("    x := add(1 + 2, 3)")),
         (wrap("    x := (1) + ((2))"), wrap("    x := 1 + 2")),
         (wrap("    x := ((1 + 2)) * (3)"), wrap("    x := (1 + 2) * 3")),
@@ -334,6 +336,9 @@ fn programs(family: &str) -> Vec<(String, Outcome)> {
             p("f :: fn p: int do\n    p = 2\nend\nstart :: fn do\n    f(1)\nend\n", Outcome::Reject);
             p(&format!("{}start :: fn do\n    a := A.X 1\n    case a do\n        X v ->\n            v = 2\n        end\n        else\n            print(1)\n        end\n    end\nend\n", enum_a), Outcome::Reject);
             p("g :: pu do\n    m := 1\nend\nstart :: fn do\n    g()\nend\n", Outcome::Reject);
+            p("g :: pu n: int -> int do\n    if n > 0 do\n        step := fn x: int -> int do\n            x + 1\n        end\n    end\n    n + n\nend\nstart :: fn do\n    g(1)\nend\n", Outcome::Reject);
+            p("g :: pu n: int -> int do\n    if n > 0 do\n        step :: fn x: int -> int do\n            x + 1\n        end\n    end\n    n + n\nend\nstart :: fn do\n    g(1)\nend\n", Outcome::Accept);
+            p("start :: fn do\n    c :: 8.0\n    c /= 2.0\nend\n", Outcome::Reject);
             p("k := 1\ng :: pu do\n    k = 2\nend\nstart :: fn do\n    g()\nend\n", Outcome::Reject);
             p("k := 1\ng :: pu do\n    if true do\n        loop false do\n            k = 2\n        end\n    end\nend\nstart :: fn do\n    g()\nend\n", Outcome::Reject);
             p("twice :: pu f: pu -> int -> int do\n    ret f() + f()\nend\nk := 1\nnext :: fn -> int do\n    k += 1\n    ret k\nend\nstart :: fn do\n    print(twice(next))\nend\n", Outcome::Reject);
@@ -387,6 +392,10 @@ fn programs(family: &str) -> Vec<(String, Outcome)> {
             p(&st("    x := 1 and true\n"), Outcome::Reject);
             p(&st("    x := \"a\" or false\n"), Outcome::Reject);
             p(&st("    x := not 1\n"), Outcome::Reject);
+            // compound division: the result of a division is a float
+            p(&st("    total := 10\n    parts := 4\n    total /= parts\n"), Outcome::Reject);
+            p(&st("    total := 10.0\n    total /= 4\n"), Outcome::Accept);
+            p(&st("    c :: 8.0\n    c /= 2.0\n"), Outcome::Reject);
             p(&st("    x := -1\n    y := -1.5\n    -2\n"), Outcome::Accept);
             p(&st("    -\"abc\"\n"), Outcome::Reject);
             p(&st("    -true\n"), Outcome::Reject);
@@ -435,6 +444,9 @@ fn programs(family: &str) -> Vec<(String, Outcome)> {
             p(&format!("{}start :: fn do\n    a := 1\n    case a do\n        X ->\n            print(2)\n        end\n        else\n            print(2)\n        end\n    end\nend\n", enum_a), Outcome::Reject);
             p(&arms("        X v ->\n            print(v + \"s\")\n        end\n        else\n            print(2)\n        end\n"), Outcome::Reject);
             p(&format!("{}start :: fn do\n    a := A.Z 1\nend\n", enum_a), Outcome::Reject);
+            p(&format!("{}start :: fn do\n    pair :: (A.Z 3, \"label\")\nend\n", enum_a), Outcome::Reject);
+            p(&format!("{}start :: fn do\n    A.Z 3\nend\n", enum_a), Outcome::Reject);
+            p(&format!("{}start :: fn do\n    pair :: (A.X 3, \"label\")\nend\n", enum_a), Outcome::Accept);
             p(&format!("{}start :: fn do\n    a := A.Z\nend\n", enum_a), Outcome::Reject);
             p(&format!("{}start :: fn do\n    a := A.X \"s\"\nend\n", enum_a), Outcome::Reject);
             p(&format!("{}start :: fn do\n    a := A.X 1\n    b := A.Y\nend\n", enum_a), Outcome::Accept);
@@ -531,6 +543,9 @@ fn programs(family: &str) -> Vec<(String, Outcome)> {
             // a loop whose body is ended by `end` / `else` (fix 7596cb1: the first one panicked in debug builds)
             p("start :: fn do\n    if true do loop false do end end\nend\n", Outcome::Accept);
             p("start :: fn do\n    x := 0\n    if x > 1 do loop x < 5 x += 1 else do x = 0 end\nend\n", Outcome::Accept);
+            p("start :: fn do\n    a := (\n    )\nend\n", Outcome::Accept);
+            p("clock :: 0\nstart :: fn do\n    clock : int : external\n    clock\nend\n", Outcome::Reject);
+            p("Pair :: blob(*A) {\n    fst: *A,\n    snd: *A,\n}\nfirst :: fn p: Pair(int, str) -> int do\n    p.fst\nend\nstart :: fn do\n    p := Pair { fst: 1, snd: 2 }\n    print' first' p\nend\n", Outcome::Reject);
             // import cycles: a file is read once, also when it does not parse
             p("use main\nstart :: fn do\n    x := (1 +\nend\n", Outcome::Reject);
             p("use other\nstart :: fn do\n    x := (1 +\nend\n//==file other.sy\nuse main\ny :: (\n", Outcome::Reject);
